@@ -361,6 +361,7 @@ type TagInfo struct {
 	Props   refmqtt.Props
 	Will    bool
 	Version byte
+	PID     uint16 // packet identifier the harness used (burst publishes only)
 }
 
 func TagPayload(tag int) []byte { return []byte(fmt.Sprintf("m%d", tag)) }
@@ -796,7 +797,7 @@ func (r *Run) Do(a Action) *Step {
 					pk.PacketID = p.pid()
 					p.Out = append(p.Out, &OutMsg{PID: pk.PacketID, Tag: tag, QoS: b.QoS, Pkt: pk})
 				}
-				r.Tags[tag] = &TagInfo{Tag: tag, Step: s.I, Client: p.Client, CID: p.CID, Peer: p.ID, Topic: b.Topic, QoS: b.QoS, Version: p.Version}
+				r.Tags[tag] = &TagInfo{Tag: tag, Step: s.I, Client: p.Client, CID: p.CID, Peer: p.ID, Topic: b.Topic, QoS: b.QoS, Version: p.Version, PID: pk.PacketID}
 				outs = append(outs, out{p, pk})
 			}
 		}
